@@ -2182,6 +2182,7 @@ func (f *e1func) branchExpr(st *fstate, cond ast.Expr, val bool) []*fstate {
 			fs = append(fs, f.expandDefs(st, fs[i])...)
 		}
 		derived := deriveFacts(st, fs)
+		derived = append(derived, f.higherOrderFacts(st, cond, val)...)
 		fs = append(fs, derived...)
 		// derived facts are also stated through the definitions of the variables they mention
 		for _, d := range derived {
